@@ -17,22 +17,23 @@ import (
 )
 
 type PEngine struct {
-	P            *Prog
-	O            *OEngine
-	funcs        map[*ssa.Function]*pfunc
-	post         map[*ssa.Function]*postCond
-	nonNilRes    map[*ssa.Function][]int // 0 unknown 1 never nil 2 maybe nil, per result
-	derefs       map[*ssa.Function][]bool
-	Nilable      map[string]bool // "Type.field" pointer fields that may be nil
-	inCallRange  map[*ssa.Function]bool
-	fieldInvs    map[string]*fieldInv
-	clauses      map[*ssa.Function][]clause
-	globNN       map[*ssa.Global]int
-	NonNegFields map[string]map[string]bool                // class -> excluded functions; fields assumed >= 0 once proven
-	NonNilIn     func(fn *ssa.Function, class string) bool // gating facts: field class is non-nil inside fn
-	EnumConv     bool
-	pureMemo     map[*ssa.Function]bool
-	nnConds      map[*ssa.Function][]condAt
+	P             *Prog
+	O             *OEngine
+	funcs         map[*ssa.Function]*pfunc
+	post          map[*ssa.Function]*postCond
+	nonNilRes     map[*ssa.Function][]int // 0 unknown 1 never nil 2 maybe nil, per result
+	derefs        map[*ssa.Function][]bool
+	Nilable       map[string]bool // "Type.field" pointer fields that may be nil
+	inCallRange   map[*ssa.Function]bool
+	callRangeMemo map[*ssa.Function][2]*big.Int
+	fieldInvs     map[string]*fieldInv
+	clauses       map[*ssa.Function][]clause
+	globNN        map[*ssa.Global]int
+	NonNegFields  map[string]map[string]bool                // class -> excluded functions; fields assumed >= 0 once proven
+	NonNilIn      func(fn *ssa.Function, class string) bool // gating facts: field class is non-nil inside fn
+	EnumConv      bool
+	pureMemo      map[*ssa.Function]bool
+	nnConds       map[*ssa.Function][]condAt
 }
 
 func NewPEngine(p *Prog, o *OEngine) *PEngine {
@@ -1479,6 +1480,40 @@ func (pf *pfunc) inductionFacts(a *vn, fs *factSet) {
 	}
 	try(+1)
 	try(-1)
+	// counters of one loop that advance in step keep their distance: for another phi of the same header with
+	// the same constant step on every way round, this - other = (initial this) - (initial other)
+	stepOf := func(p *ssa.Phi) (*big.Rat, bool) {
+		var step *big.Rat
+		pl := linAtom(pf.get(p))
+		for _, bi := range backs {
+			d := pf.linOf(pf.get(p.Edges[bi])).sub(pl)
+			if len(d.coef) != 0 {
+				return nil, false
+			}
+			if step != nil && step.Cmp(d.c) != 0 {
+				return nil, false
+			}
+			step = d.c
+		}
+		return step, step != nil
+	}
+	if myStep, ok := stepOf(ph); ok && len(inits) == 1 {
+		for _, ins := range b.Instrs {
+			other, isPhi := ins.(*ssa.Phi)
+			if !isPhi {
+				break
+			}
+			if other == ph || !isIntType(other.Type()) {
+				continue
+			}
+			if st, ok := stepOf(other); ok && st.Cmp(myStep) == 0 {
+				ii := inits[0]
+				diff := la.sub(linAtom(pf.get(other))).sub(pf.linOf(pf.get(ph.Edges[ii])).sub(pf.linOf(pf.get(other.Edges[ii]))))
+				why := fmt.Sprintf("loop counters %s and %s advance in step", shortKey(a.key), shortKey(pf.get(other).key))
+				out = append(out, fact{l: diff, why: why}, fact{l: diff.neg(), why: why})
+			}
+		}
+	}
 	pf.indMemo[key] = out
 	for _, f := range out {
 		fs.add(f)
